@@ -568,9 +568,21 @@ def run_history(spec, hseed, steps, driver, props, mode="prim", stress=False):
 
     ids = [nd["id"] for nd in spec["nodes"] if nd["kind"] not in ("producer", "token")]   # a producer is consumed only through its source
     had_cut = False
+    rng_dry = random.Random(hseed ^ 0x5BD1)     # a stream of its own: the histories stay what they were
     for step in range(steps):
         r = rng.random()
         stats["ops"] += 1
+        if r >= 0.62 and rng_dry.random() < 0.3:
+            # a DRY run (same Plan and Registry objects, no output, no fresh_time) before the sources / stored values change: it
+            # must leave nothing behind that a later run would go by
+            env.quiet, b.failing, env.cut_at = True, set(), None
+            try:
+                uberjob.run(b.plan, registry=b.reg, dry_run=True, progress=None)
+                stats["dry_runs_before_changes"] = stats.get("dry_runs_before_changes", 0) + 1
+            except Exception:      # noqa: BLE001 - e.g. a missing required source: what a dry run may raise is not judged here
+                pass
+            finally:
+                env.quiet = False
         if r < 0.62:
             # ---- a run
             out = rng.sample(ids, min(len(ids), rng.choice([0, 1, 1, 2]))) if rng.random() < 0.8 else None
